@@ -853,6 +853,15 @@ class PSBT(EmbitBase):
             raise PSBTError("Global TX field is not allowed in PSBTv2")
         if tx is None and version != 2:
             raise PSBTError("Global TX field is required in PSBTv0")
+        if version == 2 and hasattr(stream, "seek") and hasattr(stream, "tell"):
+            # every scope takes at least one byte of the stream,
+            # so we don't allocate scopes according to a counter that can't be true
+            cur = stream.tell()
+            remaining = stream.seek(0, 2) - cur
+            stream.seek(cur)
+            for k in [b"\x04", b"\x05"]:
+                if k in unknown and compact.from_bytes(unknown[k]) > remaining:
+                    raise PSBTError("Number of scopes is larger than the stream")
         psbt = cls(tx, unknown, version=version)
         # input scopes, in PSBTv2 all transaction fields come from the scope itself
         for i in range(len(psbt.inputs)):
